@@ -12,28 +12,29 @@
 #include "vsym/sym.hxx"
 
 namespace std {
-  inline vsym::sym sqrt(const vsym::sym& x) { return vsym::sqrt(x); }
-  inline vsym::sym cbrt(const vsym::sym& x) { return vsym::cbrt(x); }
-  inline vsym::sym abs(const vsym::sym& x) { return vsym::abs(x); }
-  inline vsym::sym fabs(const vsym::sym& x) { return vsym::abs(x); }
-  inline vsym::sym pow(const vsym::sym& x, const vsym::sym& y) { return vsym::pow(x, y); }
+  // constrained templates: an unqualified call under `using namespace std` then prefers the vsym:: function found by ADL (no ambiguity)
+  template <typename S> requires(std::is_same_v<S, vsym::sym>) inline vsym::sym sqrt(const S& x) { return vsym::sqrt(x); }
+  template <typename S> requires(std::is_same_v<S, vsym::sym>) inline vsym::sym cbrt(const S& x) { return vsym::cbrt(x); }
+  template <typename S> requires(std::is_same_v<S, vsym::sym>) inline vsym::sym abs(const S& x) { return vsym::abs(x); }
+  template <typename S> requires(std::is_same_v<S, vsym::sym>) inline vsym::sym fabs(const S& x) { return vsym::abs(x); }
+  template <typename S> requires(std::is_same_v<S, vsym::sym>) inline vsym::sym pow(const S& x, const S& y) { return vsym::pow(x, y); }
   template <typename A> requires(std::is_arithmetic_v<A>)
   inline vsym::sym pow(const vsym::sym& x, const A y) { return vsym::pow(x, vsym::sym(y)); }
-  inline vsym::sym exp(const vsym::sym& x) { return vsym::exp(x); }
-  inline vsym::sym log(const vsym::sym& x) { return vsym::log(x); }
-  inline vsym::sym log1p(const vsym::sym& x) { return vsym::log1p(x); }
-  inline vsym::sym cos(const vsym::sym& x) { return vsym::cos(x); }
-  inline vsym::sym sin(const vsym::sym& x) { return vsym::sin(x); }
-  inline vsym::sym tan(const vsym::sym& x) { return vsym::tan(x); }
-  inline vsym::sym acos(const vsym::sym& x) { return vsym::acos(x); }
-  inline vsym::sym asin(const vsym::sym& x) { return vsym::asin(x); }
-  inline vsym::sym atan(const vsym::sym& x) { return vsym::atan(x); }
-  inline vsym::sym atan2(const vsym::sym& y, const vsym::sym& x) { return vsym::mk_uf("atan2", {y, x}); }
-  inline vsym::sym cosh(const vsym::sym& x) { return vsym::cosh(x); }
-  inline vsym::sym sinh(const vsym::sym& x) { return vsym::sinh(x); }
-  inline vsym::sym tanh(const vsym::sym& x) { return vsym::tanh(x); }
-  inline bool isnan(const vsym::sym&) { return false; }
-  inline bool isfinite(const vsym::sym&) { return true; }
+  template <typename S> requires(std::is_same_v<S, vsym::sym>) inline vsym::sym exp(const S& x) { return vsym::exp(x); }
+  template <typename S> requires(std::is_same_v<S, vsym::sym>) inline vsym::sym log(const S& x) { return vsym::log(x); }
+  template <typename S> requires(std::is_same_v<S, vsym::sym>) inline vsym::sym log1p(const S& x) { return vsym::log1p(x); }
+  template <typename S> requires(std::is_same_v<S, vsym::sym>) inline vsym::sym cos(const S& x) { return vsym::cos(x); }
+  template <typename S> requires(std::is_same_v<S, vsym::sym>) inline vsym::sym sin(const S& x) { return vsym::sin(x); }
+  template <typename S> requires(std::is_same_v<S, vsym::sym>) inline vsym::sym tan(const S& x) { return vsym::tan(x); }
+  template <typename S> requires(std::is_same_v<S, vsym::sym>) inline vsym::sym acos(const S& x) { return vsym::acos(x); }
+  template <typename S> requires(std::is_same_v<S, vsym::sym>) inline vsym::sym asin(const S& x) { return vsym::asin(x); }
+  template <typename S> requires(std::is_same_v<S, vsym::sym>) inline vsym::sym atan(const S& x) { return vsym::atan(x); }
+  template <typename S> requires(std::is_same_v<S, vsym::sym>) inline vsym::sym atan2(const S& y, const S& x) { return vsym::mk_uf("atan2", {y, x}); }
+  template <typename S> requires(std::is_same_v<S, vsym::sym>) inline vsym::sym cosh(const S& x) { return vsym::cosh(x); }
+  template <typename S> requires(std::is_same_v<S, vsym::sym>) inline vsym::sym sinh(const S& x) { return vsym::sinh(x); }
+  template <typename S> requires(std::is_same_v<S, vsym::sym>) inline vsym::sym tanh(const S& x) { return vsym::tanh(x); }
+  template <typename S> requires(std::is_same_v<S, vsym::sym>) inline bool isnan(const S&) { return false; }
+  template <typename S> requires(std::is_same_v<S, vsym::sym>) inline bool isfinite(const S&) { return true; }
   template <>
   struct numeric_limits<vsym::sym> {
     static constexpr bool is_specialized = true;
